@@ -210,6 +210,7 @@ func clientOutcome(r *RunOut) Outcome {
 
 // exec runs one case and judges it.
 func exec(c *Case) *Obs {
+	hostRecovers = c.Prop != "C05"
 	o := &Obs{ID: c.ID, Prop: c.Prop, Class: c.Class, Policy: c.Sim.Policy}
 	sc, err := c.script()
 	if err != nil {
@@ -310,6 +311,15 @@ func outDigest(r *RunOut) string {
 				first = trunc(c, 60)
 			}
 		}
+	}
+	if os.Getenv("VERIF_OUTDUMP") == "full" {
+		var all []string
+		for _, ops := range r.Outcomes {
+			for _, oc := range ops {
+				all = append(all, trunc(oc.class(), 600)+"/"+trunc(oc.Err, 100))
+			}
+		}
+		return fmt.Sprintf("%016x %s %s", h.Sum64(), r.Res.End, strings.Join(all, " ; "))
 	}
 	return fmt.Sprintf("%016x %s %s", h.Sum64(), r.Res.End, first)
 }
